@@ -574,20 +574,20 @@ func c03SliceLattice(c *Ctx, idx int) {
 // character count differ by up to 4x around every plausible cut-off of an error message
 // (quoting, abbreviating, position arithmetic); every error is formatted every way.
 var c03ErrKinds = []struct{ pre, post string }{
-	{"'", ""},                // unterminated raw string
-	{"\"", ""},               // unterminated quoted identifier
-	{"`\"", ""},              // unterminated JSON literal
-	{"\"", "\" ||"},          // dangling operator after a long identifier
-	{"\"", "\" #"},           // bad token at the end
-	{"# \"", "\""},           // bad token at the start
-	{"nosuchfn('", "')"},     // unknown function
-	{"abs('", "', `1`)"},     // arity
-	{"abs('", "')"},          // invalid type at evaluation
+	{"'", ""},                  // unterminated raw string
+	{"\"", ""},                 // unterminated quoted identifier
+	{"`\"", ""},                // unterminated JSON literal
+	{"\"", "\" ||"},            // dangling operator after a long identifier
+	{"\"", "\" #"},             // bad token at the end
+	{"# \"", "\""},             // bad token at the start
+	{"nosuchfn('", "')"},       // unknown function
+	{"abs('", "', `1`)"},       // arity
+	{"abs('", "')"},            // invalid type at evaluation
 	{"pad_left('", "', `-1`)"}, // invalid value
-	{"$", ""},                // undefined variable with a long name (ASCII filler only is a valid name)
-	{"`1` / `0` || '", "'"},  // not a number
-	{"'", "'[::0]"},          // slice step 0
-	{"\"", "\".\"b\"[?"},     // truncated filter
+	{"$", ""},                  // undefined variable with a long name (ASCII filler only is a valid name)
+	{"`1` / `0` || '", "'"},    // not a number
+	{"'", "'[::0]"},            // slice step 0
+	{"\"", "\".\"b\"[?"},       // truncated filter
 }
 var c03ErrFill = []string{"a", "é", "日", "😀", "\u0301", "\ufffd", " ", "\\\\"}
 var c03ErrLens = []int{0, 1, 2, 7, 8, 9, 15, 16, 17, 20, 21, 22, 23, 30, 31, 32, 33, 40, 63, 64, 65, 66, 100, 127, 128, 129, 200, 255, 256, 257, 511, 512, 513, 1023, 1024, 1025, 4096, 65535, 65536, 65537}
